@@ -26,6 +26,15 @@ const REC_NAMES: [&str; 7] =
     ["Content-Length", "Content-Type", "Expect", "Transfer-Encoding", "Server", "Accept", "Accept-Encoding"];
 
 fn c15_value_for(s: &mut Src, name_idx: usize) -> String {
+    let v = c15_value_plain(s, name_idx);
+    if s.chance(16) {
+        crate::gen::hazard_value(s, &v)
+    } else {
+        v
+    }
+}
+
+fn c15_value_plain(s: &mut Src, name_idx: usize) -> String {
     // list-valued headers with parameters and weights, built combinatorially
     if s.chance(60) {
         match name_idx {
@@ -38,7 +47,7 @@ fn c15_value_for(s: &mut Src, name_idx: usize) -> String {
         0 => &["0", "5", "007", "4294967295", "4294967296", "-1", "+5", "", "1 2", "\u{ff15}", "5;", "0x5", "99999999999999999999", "+", "-0", "1e3"],
         1 | 5 => &["application/json", "text/plain", "text/html", "Text/Plain", "", "application/json; charset=utf-8", "text/plain,application/json", "\u{a0}text/plain\u{a0}", "application/json2", "text/plain x", "application/json ;q=0", "x text/plain", "application/json\ttext/plain"],
         2 => &["100-continue", "100-Continue", "103-checkpoint", "", "100-continue, x", "100-continue\u{3000}"],
-        3 => &["chunked", "identity", "gzip", "Chunked", "", "chunked, gzip", "identity;q=0"],
+        3 => &["chunked", "identity", "gzip", "Chunked", "", "chunked, gzip", "identity;q=0", "gzip, br", "chunked,", ", x", "\u{212a}, gzip", "\u{130}\u{130},", "\u{23a}\u{23a}\u{23a}, x"],
         4 => &["x", "", "Firecracker API", "a:b"],
         _ => &[
             "gzip", "identity", "*", "identity;q=0", "*;q=0", "*;q=0, identity", "identity, *;q=0", "", "gzip, deflate",
@@ -98,7 +107,8 @@ pub fn c15_line(s: &mut Src, obs_labels: &mut Vec<&'static str>) -> Vec<u8> {
         }
         2 => {
             obs_labels.push("no_or_multi_colon");
-            let raw: [&[u8]; 6] = [b"nocolon", b"Content-Length 5", b"a:b:c:d", b"Content-Length: 5: 2", b":", b"Expect:100-continue:x"];
+            // (a line of blanks only is a line without a colon, not the end of the block)
+            let raw: [&[u8]; 11] = [b"nocolon", b"Content-Length 5", b"a:b:c:d", b"Content-Length: 5: 2", b":", b"Expect:100-continue:x", b" ", b"\t", b"\xc2\xa0", b"\xe3\x80\x80 ", b" \t \xe2\x80\x83"];
             raw[s.below(raw.len())].to_vec()
         }
         _ => {
@@ -1669,10 +1679,233 @@ fn c17_authority_enum(tier: Tier, shard: u64, nshards: u64, f: &mut dyn FnMut(&[
     }
 }
 
+// --- nested dispatch: handlers that serve their request by dispatching into a router again (the
+// inner one carried by the dispatch argument, or the very router that invoked them), on the
+// calling thread; whatever a handler does while it runs, each dispatch invokes exactly the
+// handler registered for its own (method, absolute path)
+
+struct NCtx {
+    inner: HttpRoutes<u32>,
+    me: std::sync::atomic::AtomicPtr<HttpRoutes<NCtx>>,
+    depth: std::sync::atomic::AtomicU32,
+}
+
+use std::sync::atomic::Ordering as AO;
+
+type NLog = Arc<Mutex<Vec<(u8, usize)>>>;
+
+const NCODES: [u16; 5] = [200, 204, 401, 405, 501];
+
+fn nleaf_response(tag: &str, id: usize) -> Response {
+    let mut r = Response::new(Version::Http10, status_of(NCODES[id % NCODES.len()]));
+    r.set_body(micro_http::Body::new(format!("{}-{}", tag, id)));
+    r.set_content_type(MediaType::PlainText);
+    r.set_server("handler-own-server");
+    r
+}
+
+struct NInner {
+    id: usize,
+    log: NLog,
+}
+
+impl EndpointHandler<u32> for NInner {
+    fn handle_request(&self, _req: &Request, _arg: &u32) -> Response {
+        self.log.lock().unwrap().push((1, self.id));
+        nleaf_response("inner", self.id)
+    }
+}
+
+#[derive(Clone, Debug)]
+enum NKind {
+    Leaf,
+    /// forward to (inner router?, method, uri)
+    Fwd(bool, u8, String),
+}
+
+struct NOuter {
+    id: usize,
+    kind: NKind,
+    log: NLog,
+}
+
+impl EndpointHandler<NCtx> for NOuter {
+    fn handle_request(&self, _req: &Request, ctx: &NCtx) -> Response {
+        self.log.lock().unwrap().push((0, self.id));
+        match &self.kind {
+            NKind::Fwd(to_inner, m, uri) if ctx.depth.load(AO::Relaxed) < 2 => {
+                let bytes = format!("{} {} HTTP/1.1\r\n\r\n", std::str::from_utf8(METHODS[*m as usize]).unwrap(), uri);
+                let req = match Request::try_from(bytes.as_bytes(), None) {
+                    Ok(r) => r,
+                    Err(_) => return nleaf_response("outer", self.id),
+                };
+                ctx.depth.fetch_add(1, AO::Relaxed);
+                let r = if *to_inner {
+                    ctx.inner.handle_http_request(&req, &7)
+                } else {
+                    // SAFETY: set by the case to the router that is dispatching, which outlives the call
+                    unsafe { &*ctx.me.load(AO::Relaxed) }.handle_http_request(&req, ctx)
+                };
+                ctx.depth.fetch_sub(1, AO::Relaxed);
+                r
+            }
+            _ => nleaf_response("outer", self.id),
+        }
+    }
+}
+
+/// what a dispatch must do, by the model: (invocations in order, status, body)
+fn nested_expect(
+    outer: &BTreeMap<(u8, String), (usize, NKind)>,
+    inner: &BTreeMap<(u8, String), usize>,
+    to_inner: bool,
+    m: u8,
+    uri: &str,
+    depth: u32,
+    log: &mut Vec<(u8, usize)>,
+) -> (u16, Option<Vec<u8>>) {
+    let abs = ref_abs_path(uri).to_string();
+    if to_inner {
+        return match inner.get(&(m, abs)) {
+            Some(id) => {
+                log.push((1, *id));
+                (NCODES[*id % NCODES.len()], Some(format!("inner-{}", id).into_bytes()))
+            }
+            None => (404, None),
+        };
+    }
+    match outer.get(&(m, abs)) {
+        None => (404, None),
+        Some((id, kind)) => {
+            log.push((0, *id));
+            match kind {
+                NKind::Fwd(ti, tm, turi) if depth < 2 && Request::try_from(format!("{} {} HTTP/1.1\r\n\r\n", std::str::from_utf8(METHODS[*tm as usize]).unwrap(), turi).as_bytes(), None).is_ok() => {
+                    nested_expect(outer, inner, *ti, *tm, turi, depth + 1, log)
+                }
+                _ => (NCODES[*id % NCODES.len()], Some(format!("outer-{}", id).into_bytes())),
+            }
+        }
+    }
+}
+
+fn c17_nested(input: &Input, obs: &mut Obs) -> Result<(), Fail> {
+    let mut s = Src::new(input.bytes());
+    let prefix_o = PREFIXES[s.below(PREFIXES.len())];
+    let prefix_i = PREFIXES[s.below(PREFIXES.len())];
+    let log: NLog = Arc::new(Mutex::new(Vec::new()));
+    let mut inner: HttpRoutes<u32> = HttpRoutes::new("inner-identity".to_string(), prefix_i.to_string());
+    let mut model_i: BTreeMap<(u8, String), usize> = BTreeMap::new();
+    for i in 0..s.below(5) {
+        let (m, pi) = (s.below(3) as u8, s.below(PATHS.len()));
+        let key = (m, format!("{}{}", prefix_i, PATHS[pi]));
+        let r = inner.add_route(method_of(m), PATHS[pi].to_string(), Box::new(NInner { id: i, log: log.clone() }));
+        if r.is_ok() != !model_i.contains_key(&key) {
+            return Err(Fail::new("C17:add-route", format!("inner add_route({}, {:?}) returned {}", m, PATHS[pi], if r.is_ok() { "Ok" } else { "Err" })));
+        }
+        model_i.entry(key).or_insert(i);
+    }
+    let mut outer: HttpRoutes<NCtx> = HttpRoutes::new("outer-identity".to_string(), prefix_o.to_string());
+    let mut model_o: BTreeMap<(u8, String), (usize, NKind)> = BTreeMap::new();
+    let mut desc = Vec::new();
+    let mut nfwd = 0;
+    for i in 0..s.range(1, 7) {
+        let (m, pi) = (s.below(3) as u8, s.below(PATHS.len()));
+        let kind = if s.chance(150) {
+            let to_inner = s.chance(140);
+            nfwd += 1;
+            // the target is usually a route that exists (in the inner table, or an earlier or the
+            // very same route of the outer one)
+            let existing: Vec<(u8, String)> = if to_inner { model_i.keys().cloned().collect() } else { model_o.keys().cloned().chain(std::iter::once((m, format!("{}{}", prefix_o, PATHS[pi])))).collect() };
+            let existing: Vec<(u8, String)> = existing.into_iter().filter(|k| k.1.starts_with('/')).collect();
+            if !existing.is_empty() && s.chance(190) {
+                let k = &existing[s.below(existing.len())];
+                NKind::Fwd(to_inner, k.0, if s.chance(60) { format!("http://up{}", k.1) } else { k.1.clone() })
+            } else {
+                NKind::Fwd(to_inner, s.below(3) as u8, c17_uri_for(&mut s, if to_inner { prefix_i } else { prefix_o }))
+            }
+        } else {
+            NKind::Leaf
+        };
+        let key = (m, format!("{}{}", prefix_o, PATHS[pi]));
+        let r = outer.add_route(method_of(m), PATHS[pi].to_string(), Box::new(NOuter { id: i, kind: kind.clone(), log: log.clone() }));
+        if r.is_ok() != !model_o.contains_key(&key) {
+            return Err(Fail::new("C17:add-route", format!("outer add_route({}, {:?}) returned {}", m, PATHS[pi], if r.is_ok() { "Ok" } else { "Err" })));
+        }
+        desc.push((m, PATHS[pi], kind.clone()));
+        model_o.entry(key).or_insert((i, kind));
+    }
+    let ctx = NCtx { inner, me: std::sync::atomic::AtomicPtr::new(std::ptr::null_mut()), depth: std::sync::atomic::AtomicU32::new(0) };
+    ctx.me.store(&outer as *const _ as *mut _, AO::Relaxed);
+    let nreq = s.range(1, 6);
+    let mut reqs = Vec::new();
+    // requests aim at the forwarding routes more often than chance would
+    let fwd_keys: Vec<(u8, String)> = model_o.iter().filter(|(_, v)| matches!(v.1, NKind::Fwd(..))).map(|(k, _)| k.clone()).collect();
+    for _ in 0..nreq {
+        if !fwd_keys.is_empty() && s.chance(130) {
+            let k = &fwd_keys[s.below(fwd_keys.len())];
+            reqs.push((k.0, if k.1.is_empty() { "/".to_string() } else { k.1.clone() }));
+        } else {
+            reqs.push((s.below(3) as u8, c17_uri_for(&mut s, prefix_o)));
+        }
+    }
+    let mut nested_seen = false;
+    for (m, uri) in &reqs {
+        let bytes = format!("{} {} HTTP/1.1\r\n\r\n", std::str::from_utf8(METHODS[*m as usize]).unwrap(), uri);
+        let req = match Request::try_from(bytes.as_bytes(), None) {
+            Ok(r) => r,
+            Err(_) => continue,
+        };
+        log.lock().unwrap().clear();
+        ctx.depth.store(0, AO::Relaxed);
+        let resp = match std::panic::catch_unwind(std::panic::AssertUnwindSafe(|| outer.handle_http_request(&req, &ctx))) {
+            Ok(r) => r,
+            Err(p) => {
+                return Err(Fail::new("C17:dispatch", format!("dispatch of {} {:?} panicked while a handler was dispatching a further request on the same thread: {}", m, uri, crate::connrun::panic_msg(p))));
+            }
+        };
+        let calls = log.lock().unwrap().clone();
+        let mut want_calls = Vec::new();
+        let (code, body) = nested_expect(&model_o, &model_i, false, *m, uri, 0, &mut want_calls);
+        if want_calls.len() >= 2 {
+            nested_seen = true;
+        }
+        if calls != want_calls {
+            return Err(Fail::new("C17:dispatch", format!("request {} {:?}: handlers invoked (router, id) {:?}, expected {:?} (routes {:?})", m, uri, calls, want_calls, desc)));
+        }
+        if resp.status() != status_of(code) || resp.body().map(|b| b.raw().to_vec()) != body {
+            return Err(Fail::new("C17:response", format!("request {} {:?}: status {:?}, expected {} with the body of the last handler in the chain", m, uri, resp.status(), code)));
+        }
+        if resp.content_type() != MediaType::ApplicationJson {
+            return Err(Fail::new("C17:stamp", "content type is not application/json".into()));
+        }
+        let mut out = Vec::new();
+        resp.write_all(&mut out).map_err(|e| Fail::new("C17:write", format!("{}", e)))?;
+        let (rs, end) = rr_parse(&out);
+        if end != RrEnd::Clean || rs.len() != 1 {
+            return Err(Fail::new("C17:stamp", format!("router response does not parse: {:?}", end)));
+        }
+        if rs[0].header("Server") != Some("outer-identity") {
+            return Err(Fail::new("C17:stamp", format!("Server header {:?} is not the identity of the router that was asked", rs[0].header("Server"))));
+        }
+    }
+    if nested_seen {
+        obs.label("handler_dispatched_a_further_request");
+    }
+    if nfwd > 0 {
+        obs.label("forwarding_route_registered");
+    }
+    obs.nontrivial = nested_seen;
+    if obs.want_render {
+        obs.render = format!("outer prefix={:?} routes={:?}; inner prefix={:?} routes={:?}; requests={:?}", prefix_o, desc, prefix_i, model_i, reqs);
+    }
+    Ok(())
+}
+
 fn c17_plan(tier: Tier) -> Vec<Job> {
     let q = tier == Tier::Quick;
     vec![
         Job { sub: "tables", kind: JobKind::Pbt { cases: if q { 300_000 } else { 6_000_000 }, max_len: 80 }, smallbuf: false },
+        Job { sub: "nested", kind: JobKind::Pbt { cases: if q { 100_000 } else { 2_000_000 }, max_len: 120 }, smallbuf: false },
         Job { sub: "long", kind: JobKind::Enum { f: c17_long_enum, bound: "sibling routes on paths of every length 2..399 (thorough: ..879), with and without a prefix, probed with the exact path, one-byte extensions, a truncation, 3 methods, origin and absolute form" }, smallbuf: false },
         Job { sub: "authority", kind: JobKind::Enum { f: c17_authority_enum, bound: "absolute-form requests with an authority of every length 0..300 and within 24 of 2^10, 2^12, 2^15, 2^16, 2^17 (thorough: also 2^20, 2^24), ASCII and two-byte characters, x 2 prefixes x 6 paths" }, smallbuf: false },
         Job { sub: "small", kind: JobKind::Enum { f: c17_small_enum, bound: "5 prefixes x all ordered route tables of <= 2 (quick) / <= 3 (thorough) registrations over 3 methods x 13 paths (one starting with //) (duplicates included) x all requests over the same alphabet in origin-form and three absolute forms (one with a non-ASCII authority), with and without the prefix" }, smallbuf: false },
@@ -1682,9 +1915,9 @@ fn c17_plan(tier: Tier) -> Vec<Job> {
 pub fn c17() -> PropDef {
     PropDef {
         id: "C17",
-        subs: vec![("tables", c17_tables), ("small", c17_small), ("long", c17_long), ("authority", c17_authority)],
+        subs: vec![("tables", c17_tables), ("nested", c17_nested), ("small", c17_small), ("long", c17_long), ("authority", c17_authority)],
         plan: c17_plan,
-        rule: "case = (prefix, 0..8 registrations over 3 methods x 10 paths incl. prefixes of one another, ':' and empty, requests in origin/absolute form); handlers record invocations and return distinguishable responses; oracle = model map (method, prefix+path) -> first registered handler, exactly-one-invocation with the caller's argument, 404 otherwise, Server/Content-Type stamp read back by the independent response reader; non-trivial = >=2 routes that share a path, a method or a path prefix (or a duplicate) and at least one request evaluated; identities of 0..12 characters over an alphabet with HTAB, C0/DEL, lone CR/LF, NBSP, ':' ; sub 'authority': absolute-form requests with an authority of every length 0..300 and around 2^10..2^17 (thorough 2^24)",
+        rule: "case = (prefix, 0..8 registrations over 3 methods x 10 paths incl. prefixes of one another, ':' and empty, requests in origin/absolute form); handlers record invocations and return distinguishable responses; oracle = model map (method, prefix+path) -> first registered handler, exactly-one-invocation with the caller's argument, 404 otherwise, Server/Content-Type stamp read back by the independent response reader; non-trivial = >=2 routes that share a path, a method or a path prefix (or a duplicate) and at least one request evaluated; identities of 0..12 characters over an alphabet with HTAB, C0/DEL, lone CR/LF, NBSP, ':' ; sub 'authority': absolute-form requests with an authority of every length 0..300 and around 2^10..2^17 (thorough 2^24); sub 'nested': an outer table whose handlers may dispatch a further request (into an inner router carried by the dispatch argument, or into the outer router itself, to depth 2) on the calling thread: the chain of invocations, the final status/body and the outer router's stamp against the model",
         assumptions: vec![],
         single_threaded_world: false,
     }
@@ -1985,6 +2218,37 @@ fn c05_build(input: &Input, obs: &mut Obs) -> Result<(), Fail> {
         }
     }
     c05_check_f(&items, &plan, &fails)?;
+    // now and then a response is also written out *between* its builder calls (a response object
+    // that is written, modified and written again): every serialisation shows exactly the calls
+    // made so far
+    if s.chance(70) {
+        let mask = s.u16();
+        for (v, code, calls) in &items {
+            let mut real = Response::new(version_of(*v), status_of(*code));
+            let mut model = crate::respread::Model::new(*v, *code);
+            let mut writes = 0;
+            for (i, c) in calls.iter().enumerate() {
+                if (mask >> (i % 16)) & 1 == 1 || i == 0 {
+                    let mut out = Vec::new();
+                    real.write_all(&mut out).map_err(|e| Fail::new("C05:write", format!("write_all into a Vec failed: {}", e)))?;
+                    if out != model.bytes() {
+                        return Err(Fail::new("C05:bytes-between-calls", format!("{} {} written after {:?} ({} earlier write(s) of the same object):\n got  \"{}\"\n want \"{}\"", v, code, short_calls(&calls[..i]), writes, esc(&out), esc(&model.bytes()))));
+                    }
+                    writes += 1;
+                }
+                crate::respread::apply_real(&mut real, c);
+                model.apply(c);
+            }
+            let mut out = Vec::new();
+            real.write_all(&mut out).map_err(|e| Fail::new("C05:write", format!("write_all into a Vec failed: {}", e)))?;
+            if out != model.bytes() {
+                return Err(Fail::new("C05:bytes-between-calls", format!("{} {} written after {:?} ({} earlier write(s) of the same object):\n got  \"{}\"\n want \"{}\"", v, code, short_calls(calls), writes, esc(&out), esc(&model.bytes()))));
+            }
+            if writes > 0 && !calls.is_empty() {
+                obs.label("written_between_builder_calls");
+            }
+        }
+    }
     let ncalls: usize = items.iter().map(|i| i.2.len()).sum();
     let special_body = items.iter().any(|i| i.2.iter().any(|c| matches!(c, Call::SetBody(b) if find_sub(b, b"\r\n\r\n").is_some() || b.starts_with(b"HTTP/"))));
     obs.nontrivial = ncalls >= 2 || special_body || items.len() >= 2;
